@@ -484,7 +484,7 @@ package classifier
 //@   loop 2 invariant (obuf == nil || fresh(obuf)) && (linebuf == nil || fresh(linebuf)) && fresh(rbuf) && len(rbuf) == 1024 && off(rbuf) == 0 && ref(obuf) != ref(rbuf)
 //@   loop 3 invariant (obuf == nil || fresh(obuf)) && fresh(rbuf) && len(rbuf) == 1024 && off(rbuf) == 0 && ref(obuf) != ref(rbuf)
 //@   loop 3 invariant forall j int :: 0 <= j && j < ite(err == nil, 1024, tgt) ==> rbuf[j] == streamByte(src, spos - idx + j)
-//@   props C10 C03 C08 C09 C04
+//@   props C10 C03 C08 C09 C04 C11
 //@
 //@ func NewClassifier
 //@   requires 0.0 <= threshold && threshold <= 1.0
